@@ -129,3 +129,35 @@ def r3(cx):
             cx.check(not bad, "`%s` never unlinks or renames the LOCK file" % b2.id, "lock-unlinked|%s" % b2.id, bad[0].where() if bad else b2.where(),
                      "`%s` removes/renames the LOCK file: an opener that already opened the old inode and one that creates a fresh file both obtain the lock" % b2.id)
     who_calls(cx, ["LockFile::release"], {"Core::close", "<LockFile as Drop>::drop", "lockfile::LockFile::drop"}, "LockFile::release callers", "who:release", minimum=2)
+
+
+SUBDIR = {"sstable_dir", "wal_dir", "manifest_dir", "vlog_dir", "versioned_index_dir", "sstable_file_path", "vlog_file_path", "manifest_file_path", "join"}
+
+
+@rule("C19", "C19.R4", "only LockFile touches files directly in the database root (the LOCK inode outlives restore, clean-up and repair)")
+def r4(cx):
+    """The exclusive lock lives on the inode of `<root>/LOCK`.  Anything that unlinks, renames over or recreates a file
+    directly in the root while the store is open detaches the lock from the path: the next opener creates a fresh LOCK,
+    locks it and runs recovery against the live instance.  Decided crate-wide: every remove_file / remove_dir_all /
+    rename / File::create / hard_link / copy whose path derives from `Options.path` goes through a sub-directory accessor
+    or a join first."""
+    f = cx.f
+    pats = ("std::fs::remove_file", "std::fs::remove_dir_all", "std::fs::remove_dir", "std::fs::rename", "std::fs::File::create", "std::fs::copy", "std::fs::hard_link", "std::fs::write")
+    n = 0
+    for c in f.callers_of(*pats):
+        if c.body.file.endswith("lockfile.rs"):
+            continue
+        n += 1
+        owner = f.fn_of(c.body).id
+        for ai, a in enumerate(c.args[:2]):
+            o = origin_of_operand(c.body, a, through_calls="all")
+            root = any(name == "path" and own.endswith("Options") for own, name in o.fields)
+            if not root:
+                if ai == 0:
+                    cx.ok("`%s`: %s path does not derive from the database root" % (owner, c.primary.split("::")[-1]), c.where())
+                continue
+            via = {x.primary.split("::")[-1] for x in o.calls} & SUBDIR
+            cx.check(bool(via), "`%s`: %s below the root goes through %s" % (owner, c.primary.split("::")[-1], sorted(via)), "root-file-touched|%s|%s" % (owner, c.primary.split("::")[-1]), c.where(),
+                     "`%s` calls %s on a path taken directly from the database root (no sub-directory in between): the LOCK file lives there; unlinking or replacing it while the "
+                     "store is open lets a second instance open the same directory" % (owner, c.primary))
+    cx.floor("file-system mutation sites outside lockfile.rs", n, 15)
